@@ -751,6 +751,13 @@ func handleConnectionBindRequest(req Request, stunMsg *stun.Message) error {
 		stun.NewType(stun.MethodConnectionBind, stun.ClassSuccessResponse),
 		connectionID,
 	)...); err != nil {
+		// The peer connection counts as bound (its timer is stopped and no other
+		// ConnectionBind can have it): without a pipe nothing would ever close it.
+		if closeErr := tcpConn.Close(); closeErr != nil {
+			req.Log.Debugf("Close tcpConn error: %s", closeErr)
+		}
+		req.AllocationManager.RemoveTCPConnection(connectionID)
+
 		return err
 	}
 
